@@ -81,6 +81,8 @@ def run_source(src, env):
         sig, why = 'names', f'names expected {renv!r} got {ienv!r}'
     if why is None and set(ienv) != set(renv):
         sig, why = 'names', f'names keys expected {sorted(renv)} got {sorted(ienv)}'
+    if mon.total_entries > 3 and mon.charges_ok + mon.charges_raised == 0:
+        raise core.HarnessError('monitor: node evaluations observed but no charge through Op.eval (seam moved?)')
     if why is None and mon.charges_ok + mon.charges_raised != mon.total_entries:
         sig, why = 'ops:charge-vs-entries', f'{mon.charges_ok}+{mon.charges_raised} charges for {mon.total_entries} node evaluations'
     if why is None and interp.ops != mon.charges_ok + mon.charges_raised:
